@@ -235,12 +235,15 @@ class Poly:
             cp = _const_pow(c, e)
             mono, k = _mono_norm([(a, x * e) for a, x in m])
             return cp * Poly(((mono, k),)) if k != 0 else ZERO
-        if e.denominator == 1 and 1 < e <= 6:
+        if e.denominator == 1 and 1 < e <= 6 and len(self.terms) ** int(e) <= 4096:
             r = self
             for _ in range(int(e) - 1):
                 r = r * self
             return r
         c, q = self.content()
+        if e.denominator != 1 and c < 0:
+            # keep the sign inside the radicand: sqrt(-2a + b) is not sqrt(-1)*sqrt(2a - b)
+            c, q = -c, -q
         mono, q = q.common_monomial()
         r = _const_pow(c, e) * Poly.atom(('poly', q), e)
         if mono:
@@ -362,8 +365,9 @@ def _const_pow(c, e):
             return Poly.atom(('app', 'inf', ()))
         return Poly.const(c ** int(e))
     if c > 0:
-        rn = _iroot(c.numerator, e.denominator)
-        rd = _iroot(c.denominator, e.denominator)
+        small = e.denominator <= 12 and abs(e.numerator) <= 64
+        rn = _iroot(c.numerator, e.denominator) if small else None
+        rd = _iroot(c.denominator, e.denominator) if small else None
         if rn is not None and rd is not None:
             return Poly.const(Fraction(rn, rd) ** e.numerator)
         return Poly.atom(('num', c), e)
